@@ -157,15 +157,9 @@ class DataPath:
 
         REPLACE = "path"
         ESC_CODE = rf"\{REPLACE}"
-        is_escaped = False
-        for k in list(spec.keys()):
-            if ESC_CODE in k:
-                is_escaped = True
-                spec_val = spec.pop(k)
-                k_new = k.replace(ESC_CODE, REPLACE)
-                spec[k_new] = spec_val
-        if is_escaped:
-            return spec
+        if any(ESC_CODE in k for k in spec):
+            # an escaped (literal) mapping: return an un-escaped copy
+            return {k.replace(ESC_CODE, REPLACE): v for k, v in spec.items()}
 
         if len(spec) > 1:
             raise MalformedDataPathSpec(
@@ -518,6 +512,7 @@ class ContainerValue:
             "list_value": ListValue,
             "map_or_list_value": MapOrListValue,
         }
+        spec = dict(spec)  # the items are popped below; leave the caller's mapping alone
         container_type = spec.pop("type", "map_or_list_value")
         try:
             cls = CLS_LOOKUP[container_type]
